@@ -178,9 +178,13 @@ func VH_C02_SetPayload() {
 	if k == n {
 		vrt.Assert(len(back) == n, "a payload that fits is read back with its exact length")
 	}
+	same := true
 	for i := range data {
-		vrt.Assert(data[i] == keep[i], "the caller's data is not modified")
+		if data[i] != keep[i] {
+			same = false
+		}
 	}
+	vrt.Assert(same, "the caller's data is not modified")
 	vrt.Reach("end")
 }
 
